@@ -33,11 +33,12 @@ func bud(id string, q, t budget) { budgets[id] = map[string]budget{"quick": q, "
 
 func init() {
 	def := func(id string) {
-		bud(id, budget{ffRuns: 400, runs: 1600, wallSec: 50, chunk: 50}, budget{ffRuns: 20000, runs: 180000, wallSec: 780, chunk: 250, selftest: 40})
+		// thorough: the run counts are upper bounds, the wall clock (13 min of running + self-test + build) is what ends the tier
+		bud(id, budget{ffRuns: 400, runs: 1600, wallSec: 50, chunk: 50}, budget{ffRuns: 200000, runs: 1800000, wallSec: 780, chunk: 500, selftest: 40})
 	}
 	// crash sweeps run tens of worlds per case
-	bud("C08", budget{ffRuns: 60, runs: 240, wallSec: 40, chunk: 5}, budget{ffRuns: 1500, runs: 13500, wallSec: 780, chunk: 25, selftest: 20})
-	bud("C14", budget{ffRuns: 400, runs: 1200, wallSec: 50, chunk: 20}, budget{ffRuns: 20000, runs: 60000, wallSec: 780, chunk: 100, selftest: 20})
+	bud("C08", budget{ffRuns: 60, runs: 240, wallSec: 40, chunk: 5}, budget{ffRuns: 5000, runs: 45000, wallSec: 780, chunk: 25, selftest: 20})
+	bud("C14", budget{ffRuns: 400, runs: 1200, wallSec: 50, chunk: 20}, budget{ffRuns: 60000, runs: 240000, wallSec: 780, chunk: 100, selftest: 20})
 	for _, id := range []string{"C01", "C02", "C03", "C05", "C06", "C07", "C09", "C10", "C11", "C12", "C15", "C16", "C17", "C18", "C19"} {
 		def(id)
 	}
@@ -372,20 +373,35 @@ func cmdCheck(args []string) int {
 		from int64
 		n    int64
 	}
-	var jobsList []job
+	var ffJobs, fJobs, jobsList []job
 	for from := int64(0); from < b.ffRuns; from += b.chunk {
 		n := b.chunk
 		if from+n > b.ffRuns {
 			n = b.ffRuns - from
 		}
-		jobsList = append(jobsList, job{true, from, n})
+		ffJobs = append(ffJobs, job{true, from, n})
 	}
 	for from := int64(0); from < b.runs; from += b.chunk {
 		n := b.chunk
 		if from+n > b.runs {
 			n = b.runs - from
 		}
-		jobsList = append(jobsList, job{false, from, n})
+		fJobs = append(fJobs, job{false, from, n})
+	}
+	// The fault-free configuration goes first (a relaxation made for faults must not hide an ordinary bug): the
+	// first fifth of its chunks alone, the rest interleaved with the faulty chunks in proportion, so that a wall
+	// clock cap cuts both configurations alike instead of starving the faulty one.
+	head := (len(ffJobs) + 4) / 5
+	jobsList = append(jobsList, ffJobs[:head]...)
+	ffJobs = ffJobs[head:]
+	for i, j := 0, 0; i < len(ffJobs) || j < len(fJobs); {
+		if j >= len(fJobs) || (i < len(ffJobs) && i*len(fJobs) <= j*len(ffJobs)) {
+			jobsList = append(jobsList, ffJobs[i])
+			i++
+		} else {
+			jobsList = append(jobsList, fJobs[j])
+			j++
+		}
 	}
 	var mu sync.Mutex
 	var harnessErr error
